@@ -34,7 +34,7 @@ from ..ast_view import find_fqn
 from ..cpp_gen import AccessSpecifier, Comment
 from ..misc_utils import get_basename
 from ..support_files import strict_port, ilog, misc_utils, meta_helpers, multi_client_selector, \
-    mutex_wrapped
+    mutex_wrapped, include_guarded
 from ..scoping import ns_ids_t
 from ..text_gen import BLANK_LINE, chunk, DO_NOT_MODIFY, GeneratedContent, TextBlock, TB
 
@@ -239,8 +239,11 @@ class Builder:
 
         footer = Comment(f'Generated by: dznpy/adv_shell v{VERSION}')
 
-        return GeneratedContent(filename=f'{cpp.target_file_basename}.hh',
-                                contents=str(TextBlock([header, cpp.namespace, footer])))
+        filename = f'{cpp.target_file_basename}.hh'
+        guard_name = '_'.join(cpp.namespace.ns_ids.items + [filename])
+        return GeneratedContent(filename=filename,
+                                contents=include_guarded(guard_name, str(
+                                    TextBlock([header, cpp.namespace, footer]))))
 
     def _create_sourcefile(self) -> GeneratedContent:
         """Generate a c++ sourcefile according to the current recipe."""
